@@ -167,5 +167,163 @@ def renderCanon : List K → List Char
 /-- the module as text, canonical single-space trivia -/
 def printText (m : G.Module) : String := String.ofList (renderCanon (printK true m))
 
+/-! ## rendering with trivia
+
+`render ts τ` writes the tokens `ts` with the lay-out choices `τ`: what stands in the gap after
+each token (white space, `//` comments, nested `/* */` comments), how each integer is spelled
+(base, `_` separators, letter case) and whether a `doc` attribute is written as a doc comment.
+`render` is total and *repairs* inadmissible choices instead of producing text that reads
+differently: an invalid trivia piece becomes a blank, a blank is inserted where two tokens
+would otherwise glue together, a doc comment style that cannot express the text falls back to
+`#[doc = "…"]`.  Nothing is ever put after a `joint` punctuation character. -/
+
+/-- one piece of trivia -/
+inductive Piece where
+  /-- a white-space character (ASCII: blank, tab, line feed, vertical tab, form feed, CR) -/
+  | ws (c : Char)
+  /-- `//text` followed by a line feed; `text` has no line feed and does not start with `/`, `!` -/
+  | line (text : List Char)
+  /-- `/*body*/`; `body` is balanced, and does not start with `*` or `!` -/
+  | block (body : List Char)
+deriving Repr, DecidableEq
+
+def Piece.valid : Piece → Bool
+  | .ws c => Lex.isWs c && c.toNat < 128
+  | .line t => !t.contains '\n' && (match t with | c :: _ => c != '/' && c != '!' | [] => true)
+  | .block b =>
+    (match b with | c :: _ => c != '*' && c != '!' | [] => true) &&
+    Lex.blockEnd 0 (b ++ ['*', '/']) == some []
+
+def Piece.text (p : Piece) : List Char :=
+  if p.valid then
+    match p with
+    | .ws c => [c]
+    | .line t => '/' :: '/' :: t ++ ['\n']
+    | .block b => '/' :: '*' :: b ++ ['*', '/']
+  else [' ']
+
+inductive Base where
+  | dec | hex | oct | bin
+deriving Repr, DecidableEq
+
+def Base.radix : Base → Nat | .dec => 10 | .hex => 16 | .oct => 8 | .bin => 2
+def Base.pre : Base → List Char
+  | .dec => [] | .hex => ['0', 'x'] | .oct => ['0', 'o'] | .bin => ['0', 'b']
+
+/-- how to spell an integer: base, lower-case hex letters, `_`s before the first digit (ignored
+    for decimal) and after each digit -/
+structure IntSpell where
+  base : Base := .dec
+  lower : Bool := false
+  lead : Nat := 0
+  after : List Nat := []
+deriving Repr
+
+def lowerCh (c : Char) : Char := if 'A' ≤ c ∧ c ≤ 'F' then Char.ofNat (c.toNat + 32) else c
+
+def weave : List Char → List Nat → List Char
+  | [], _ => []
+  | d :: ds, [] => d :: weave ds []
+  | d :: ds, n :: ns => d :: List.replicate n '_' ++ weave ds ns
+
+def spellInt (sp : IntSpell) (v : Nat) : List Char :=
+  let ds := ((digitsLE sp.base.radix v).reverse).map digitChar
+  let ds := if sp.lower then ds.map lowerCh else ds
+  sp.base.pre ++ (if sp.base = .dec then [] else List.replicate sp.lead '_') ++ weave ds sp.after
+
+inductive DocStyle where
+  | attr | line | block
+deriving Repr, DecidableEq
+
+/-- the lay-out choices, indexed by the position of the token in the list -/
+structure Trivia where
+  /-- before the first token -/
+  lead : List Piece := []
+  /-- in the gap after token `i` -/
+  gap : Nat → List Piece := fun _ => [.ws ' ']
+  /-- the spelling of token `i` when it is an integer -/
+  int : Nat → IntSpell := fun _ => {}
+  /-- the spelling of the `doc` attribute whose `#` is token `i` -/
+  doc : Nat → DocStyle := fun _ => .attr
+
+def piecesText (ps : List Piece) : List Char := ps.flatMap Piece.text
+
+def isWordy : K → Bool
+  | .ident _ | .int _ | .str _ | .lit => true
+  | _ => false
+
+def isPunctK : K → Bool
+  | .punct _ _ => true
+  | _ => false
+
+/-- the two tokens may not stand side by side without trivia -/
+def glues (a b : K) : Bool :=
+  (isWordy a && isWordy b) || (isPunctK a && isPunctK b) ||
+  (match a, b with | .ident _, .punct _ _ => true | _, _ => false)
+
+/-- the text in the gap after `a` (before `b`, if there is a next token) -/
+def gapText (a : K) (b : Option K) (ps : List Piece) : List Char :=
+  match a with
+  | .punct _ true => []
+  | _ =>
+    let t := piecesText ps
+    match b with
+    | none => t
+    | some b =>
+      if t.isEmpty && glues a b then [' ']
+      else if a == .op .paren && b == .cl .paren && t == "/*ERROR*/".toList then ' ' :: t
+      else t
+
+/-- can the text be written as a `///` (`//!`) comment? -/
+def lineDocOk (inner : Bool) (t : List Char) : Bool :=
+  !t.contains '\n' && !t.contains '\r' && (inner || (match t with | c :: _ => c != '/' | [] => true))
+
+/-- can the text be written as a `/** */` (`/*! */`) comment? -/
+def blockDocOk (inner : Bool) (t : List Char) : Bool :=
+  !Lex.hasBareCR t &&
+  (inner || (match t with | c :: _ => c != '*' && c != '/' | [] => false)) &&
+  Lex.blockEnd 0 ((if inner then '!' else '*') :: t ++ ['*', '/']) == some []
+
+/-- the doc attribute starting at the head of the list, if there is one:
+    (inner, text, number of tokens, rest) -/
+def docAttr? : List K → Option (Bool × String × Nat × List K)
+  | .punct '#' _ :: .op .bracket :: .ident "doc" :: .punct '=' _ :: .str s :: .cl .bracket :: r =>
+    some (false, s, 6, r)
+  | .punct '#' _ :: .punct '!' _ :: .op .bracket :: .ident "doc" :: .punct '=' _ :: .str s ::
+      .cl .bracket :: r => some (true, s, 7, r)
+  | _ => none
+
+def spellWith (τ : Trivia) (i : Nat) : K → List Char
+  | .int v => spellInt (τ.int i) v
+  | k => spell k
+
+/-- `fuel` = number of tokens -/
+def renderK (τ : Trivia) : Nat → Nat → List K → List Char
+  | 0, _, _ => []
+  | _ + 1, _, [] => []
+  | f + 1, i, k :: ks =>
+    let plain := spellWith τ i k ++ gapText k ks.head? (τ.gap i) ++ renderK τ f (i + 1) ks
+    match docAttr? (k :: ks) with
+    | some (inner, s, n, rest) =>
+      let t := s.toList
+      let last := i + n - 1
+      match τ.doc i with
+      | .line =>
+        if lineDocOk inner t then
+          '/' :: '/' :: (if inner then '!' else '/') :: t ++ '\n' ::
+            gapText (.cl .bracket) rest.head? (τ.gap last) ++ renderK τ f (i + n) rest
+        else plain
+      | .block =>
+        if blockDocOk inner t then
+          '/' :: '*' :: (if inner then '!' else '*') :: t ++ '*' :: '/' ::
+            gapText (.cl .bracket) rest.head? (τ.gap last) ++ renderK τ f (i + n) rest
+        else plain
+      | .attr => plain
+    | none => plain
+
+/-- the text of a token list under the lay-out choices `τ` -/
+def render (ts : List Tok) (τ : Trivia) : String :=
+  String.ofList (piecesText τ.lead ++ renderK τ ts.length 0 (ts.map (·.k)))
+
 end Print
 end PyxisVerif
